@@ -23,7 +23,7 @@ def multi_gates(n):
     return two + three
 
 
-def decorate(n, gates, env):
+def decorate(n, gates, env, everywhere=False):
     """Program: leading layer on every qubit, then after each multi-qubit gate a
     single-qubit gate on each of its qubits, rotating through all supported ones."""
     prog = []
@@ -42,7 +42,7 @@ def decorate(n, gates, env):
         single(q)
     for g in gates:
         prog.append(g)
-        for q in g[1:]:
+        for q in (range(n) if everywhere else g[1:]):      # everywhere: also on the qubits the gate did not address
             single(q)
     return prog
 
@@ -82,11 +82,14 @@ def check_conversion(n, gates, aps, env, acc, split=False):
     import signal
     from lightworks.qubit import qiskit_converter
     plain = split == "plain"          # the multi-qubit gates alone, without the single-qubit decoration
+    full = split == "full"            # single-qubit gates on every qubit (bystanders too) after each multi-qubit gate
     split = split is True
-    prog = list(gates) if plain else decorate(n, gates, env)
+    prog = list(gates) if plain else decorate(n, gates, env, everywhere=full)
     case = {"n_qubits": n, "gates": gates, "allow_post_selection": aps, "seed": env.seed}
     if plain:
         case["plain"] = True
+    if full:
+        case["full"] = True
     if split:
         case["registers"] = [1, n - 1]
     qc = build_qc(n, prog, split)
@@ -204,7 +207,16 @@ def run(tier, seed):
         for d in range(1, L + 1):
             for gates in itertools.product(two, repeat=d):
                 plain_jobs.append((n, gates, True, "plain"))
-    jobs = [j + (False,) for j in jobs] + split_jobs + plain_jobs
+    # single-qubit gates on the bystander qubits too (whatever a gate does to qubits it was not given must be undone
+    # before the next instruction)
+    full_jobs = []
+    for n, L in [(3, 2), (4, 1)]:
+        mg = multi_gates(n)
+        two = [g for g in mg if len(g) == 3]
+        for gates in [(g,) for g in mg] + (list(itertools.product(two, repeat=2)) if L >= 2 else []):
+            for aps in (False, True):
+                full_jobs.append((n, gates, aps, "full"))
+    jobs = [j + (False,) for j in jobs] + split_jobs + plain_jobs + full_jobs
 
     def shard_fn(js):
         acc = kernel.Acc()
@@ -244,4 +256,4 @@ def replay(w, acc):
         check_unsupported(env, acc)
         return
     check_conversion(case["n_qubits"], tuple(_tup(g) for g in case["gates"]), case["allow_post_selection"], env, acc,
-                     split="plain" if case.get("plain") else "registers" in case)
+                     split="plain" if case.get("plain") else "full" if case.get("full") else "registers" in case)
